@@ -19,7 +19,7 @@ use vcore::{Value, json};
 
 /// (name, helper item declared before the block, statements with `@` for the
 /// compared value, value that makes the block accept, value that makes it reject)
-pub const BODIES: [(&str, &str, &str, &str, &str); 12] = [
+pub const BODIES: [(&str, &str, &str, &str, &str); 16] = [
     ("lets", "", "let a = 1;\n    let b = a + 2;\n    let c = b * b;\n    if c == @ { accept } else { reject }", "9", "8"),
     ("fstr_i32", "", "let x: i32 = 40 + 2;\n    let s = f\"x={x}\";\n    if s == \"@\" { accept } else { reject }", "x=42", "x=43"),
     ("fstr_bool", "", "let b = 1 == 1;\n    let s = f\"{b}!\";\n    if s == \"@\" { accept } else { reject }", "true!", "false!"),
@@ -50,6 +50,36 @@ pub const BODIES: [(&str, &str, &str, &str, &str); 12] = [
     ),
     ("list", "", "let l = [1, 2, 3];\n    l.push(4);\n    if l.len() == @ { accept } else { reject }", "4", "5"),
     ("concat", "", "let s = \"ab\" + \"cd\";\n    if s == \"@\" { accept } else { reject }", "abcd", "abce"),
+    // helpers that call each other: whatever orders the items of a package for compilation
+    // must not lose a test block that calls into a recursion cycle (seeded change C19-6)
+    (
+        "mutual_first",
+        "fn ping(n: i32) -> i32 {\n    if n == 0 { 0 } else { pong(n - 1) + 1 }\n}\nfn pong(n: i32) -> i32 {\n    if n == 0 { 0 } else { ping(n - 1) + 1 }\n}\n",
+        "if ping(3) == @ { accept } else { reject }",
+        "3",
+        "4",
+    ),
+    (
+        "mutual_second",
+        "fn ping(n: i32) -> i32 {\n    if n == 0 { 0 } else { pong(n - 1) + 1 }\n}\nfn pong(n: i32) -> i32 {\n    if n == 0 { 0 } else { ping(n - 1) + 1 }\n}\n",
+        "if pong(3) == @ { accept } else { reject }",
+        "3",
+        "4",
+    ),
+    (
+        "mutual_three_last",
+        "fn ra(n: i32) -> i32 {\n    if n == 0 { 0 } else { rb(n - 1) + 1 }\n}\nfn rb(n: i32) -> i32 {\n    if n == 0 { 0 } else { rc(n - 1) + 1 }\n}\nfn rc(n: i32) -> i32 {\n    if n == 0 { 0 } else { ra(n - 1) + 1 }\n}\n",
+        "if rc(4) + rb(1) == @ { accept } else { reject }",
+        "5",
+        "6",
+    ),
+    (
+        "self_recursive",
+        "fn fact(n: i32) -> i32 {\n    if n == 0 { 1 } else { n * fact(n - 1) }\n}\n",
+        "if fact(4) == @ { accept } else { reject }",
+        "24",
+        "25",
+    ),
 ];
 
 /// ill-typed bodies: the script must be rejected with a report
